@@ -14,9 +14,24 @@
    Every theorem quantifies over ALL histories [ops] (no length bound).
 
    [issued o x] is the identifier a registration [o] returned in output [x];
-   [known r id] says mpt_type_traits(id) is non-NULL in state [r]. *)
+   [known r id] says mpt_type_traits(id) is non-NULL in state [r].
+
+   Layering (second half of the file).  [sreg] (RegistrySpec.v) is the abstract
+   registry: a finite map id |-> (kind, description, optional name), a finite map
+   name |-> id and one next-free counter per kind; [sstep] is its one-page
+   specification of every operation, [sreg0] its fresh state built from the
+   independent list g_ctype_sizes.  [abs : reg -> sreg] (RegistryAbs.v) reads the
+   abstract state off the tables, [obs] projects the model's outputs (error kinds
+   and the raw positions of a sweep are dropped).  C06_step_refines_spec /
+   C06_history_refines_spec / C06_fresh_refines_spec say M [= S for EVERY
+   operation; [op_wf] only says that an id argument fits the C parameter type
+   (uintptr_t).  The C06_spec_* theorems prove the property on S itself, the
+   C06_*_via_spec theorems transfer them to the mechanism through the refinement;
+   the direct theorems of the first half are kept (they need no [op_wf]). *)
 From MptV Require Import Base.Mem C06.Gen_Types C06.TypesModel C06.TypesFacts
-  C06.TypesChunks C06.TypesInv C06.TypesProps C06.TypesHistory.
+  C06.TypesChunks C06.TypesInv C06.TypesProps C06.TypesHistory
+  C06.RegistrySpec C06.RegistryAbs C06.RegistryMaps C06.RegistryLookup C06.RegistryRefine
+  C06.RegistryProps C06.RegistryCorollaries.
 
 (* outputs of a history are the outputs of its prefix followed by those of the
    rest run from the state the prefix leaves *)
@@ -123,6 +138,87 @@ Theorem C06_helpers_consistent :
      exists i, type_traits reg0 t = Ok (Some i) /\ ti_size i = msgvalfmt_size c).
 Proof. exact h_helpers. Qed.
 
+(* ================= refinement: mechanism model [= abstract specification ================= *)
+
+(* One operation, any state satisfying the invariant: the invariant is kept, and
+   the specification, run on the abstraction of the state, reaches the abstraction
+   of the new state and makes the same observation.  All 15 operations:
+   add basic / add traits / add interface / add metatype (accepted, refused,
+   exhausted), lookups by id (3), by name (full, length-limited), alias
+   descriptions, the stateless helpers, the sweep. *)
+Theorem C06_step_refines_spec : forall r o, inv r -> op_wf o ->
+  let '(r', x) := step r o in inv r' /\ sstep (abs r) o = (abs r', obs x).
+Proof. exact step_refines. Qed.
+
+(* Every history, by induction over the operation list. *)
+Theorem C06_history_refines_spec : forall ops r, inv r -> Forall op_wf ops ->
+  srun (abs r) ops = map obs (run r ops) /\
+  sexec (abs r) ops = abs (exec r ops) /\
+  inv (exec r ops).
+Proof. exact run_refines. Qed.
+
+(* The fresh process: the abstraction of the mechanism's initial tables IS the
+   specification's initial registry (computed over the regenerated tables:
+   core/scalar/vector sizes, built-in interfaces, base metatype, managed types
+   against g_ctype_sizes, all ids 0..g_ValueMax), both invariants hold ... *)
+Theorem C06_fresh_state : abs reg0 = sreg0 /\ inv reg0 /\ sinv sreg0.
+Proof. exact fresh_state. Qed.
+
+(* ... hence every history of the mechanism from a fresh process is, observation
+   by observation and state by state, the history of the specification. *)
+Theorem C06_fresh_refines_spec : forall ops, Forall op_wf ops ->
+  srun sreg0 ops = map obs (run reg0 ops) /\
+  sexec sreg0 ops = abs (exec reg0 ops).
+Proof. exact fresh_refines. Qed.
+
+(* ---- the property on the specification itself (all histories) ---- *)
+Theorem C06_spec_ids_unique : forall ops,
+  NoDup (s_issued_run sreg0 ops) /\ forall id, In id (s_issued_run sreg0 ops) -> s_get sreg0 id = None.
+Proof. exact spec_ids_unique. Qed.
+
+Theorem C06_spec_ids_in_kind_range : forall ops o id,
+  s_issued o (snd (sstep (sexec sreg0 ops) o)) = Some id ->
+  reg_kind o <> KBuiltin /\ (kind_first (reg_kind o) <= id <= kind_last (reg_kind o))%N.
+Proof. exact spec_issued_range. Qed.
+
+Theorem C06_spec_lookup_stable : forall ops1 ops2,
+  let s1 := sexec sreg0 ops1 in
+  let s2 := sexec sreg0 (ops1 ++ ops2) in
+  (forall id d, s_get s1 id = Some d -> s_get s2 id = Some d) /\
+  (forall n id, s_find s1 n = Some id -> s_find s2 n = Some id).
+Proof. exact spec_stable. Qed.
+
+Theorem C06_spec_refusal_preserves : forall s o,
+  s_issued o (snd (sstep s o)) = None -> fst (sstep s o) = s.
+Proof. exact spec_refused_unchanged. Qed.
+
+(* ---- corollaries for the mechanism: refinement + the property of the specification ---- *)
+Theorem C06_ids_unique_via_spec : forall ops, Forall op_wf ops ->
+  NoDup (issued_run reg0 ops) /\ forall id, In id (issued_run reg0 ops) -> known reg0 id = false.
+Proof. exact ids_unique_via_spec. Qed.
+
+Theorem C06_ids_in_kind_range_via_spec : forall ops o id, Forall op_wf ops -> op_wf o ->
+  issued o (snd (step (exec reg0 ops) o)) = Some id -> kind_range o id.
+Proof. exact ids_in_range_via_spec. Qed.
+
+Theorem C06_lookup_stable_via_spec : forall ops1 ops2, Forall op_wf ops1 -> Forall op_wf ops2 ->
+  let r1 := exec reg0 ops1 in
+  let r2 := exec reg0 (ops1 ++ ops2) in
+  (forall id t, (id < 2 ^ g_WordBits)%N -> type_traits r1 id = Ok (Some t) -> type_traits r2 id = Ok (Some t)) /\
+  (forall n len e, named_traits r1 n len = inl e -> named_traits r2 n len = inl e).
+Proof. exact lookup_stable_via_spec. Qed.
+
+(* Built-in types, both directions: whatever the fresh registry describes is a
+   listed built-in id with the size of its C type (no undocumented, no wrongly
+   sized built-in type among ALL ids below 2^g_WordBits), and every listed id is
+   described with that size after every history.  Finite part: sweeps over
+   g_ctype_sizes and over the ids 0..g_ValueMax (in C06_fresh_state). *)
+Theorem C06_builtins_exactly_listed :
+  (forall id t, (id < 2 ^ g_WordBits)%N -> type_traits reg0 id = Ok (Some t) -> In (id, ti_size t) g_ctype_sizes) /\
+  (forall id sz, In (id, sz) g_ctype_sizes -> forall ops, Forall op_wf ops ->
+     exists t, type_traits (exec reg0 ops) id = Ok (Some t) /\ ti_size t = sz).
+Proof. exact builtins_exactly_listed. Qed.
+
 (* ---- non-vacuity ---- *)
 Definition nm_hello : name := [104;101;108;108;111]%N.
 Definition nm_world : name := [119;111;114;108;100]%N.
@@ -171,6 +267,45 @@ Example C06_builtin_example :
   g_ctype_sizes <> [].
 Proof. vm_compute. repeat split; try tauto; discriminate. Qed.
 
+(* the specification really runs: ids from the counters, cross-kind duplicate, built-in name, alias
+   and short name refused, lookups by id and name, an alias description *)
+Example C06_spec_run_example :
+  srun sreg0 [OpBasicAdd 4; OpIfaceAdd (Some nm_hello); OpMetaAdd (Some nm_hello); OpMetaAdd (Some nm_logger);
+              OpIfaceAdd (Some nm_iter); OpIfaceAdd (Some [97;98;99]%N); OpMetaAdd (Some nm_world);
+              OpTypeAdd (Some tr8); OpTraits 192; OpIface 144; OpNamed (Some nm_world) (-1);
+              OpNamed (Some nm_iter) (-1); OpAlias (Some (nm_hello ++ [32;58;32;120])%N) true; OpMeta 144]
+  = [SId 192; SEntry 144 (Some nm_hello) ptr_traits; SRefused; SRefused; SRefused; SRefused;
+     SEntry 257 (Some nm_world) ptr_traits; SId 2304; STraits (Some (plain 4));
+     SEntry 144 (Some nm_hello) ptr_traits; SEntry 257 (Some nm_world) ptr_traits;
+     SEntry 134 (Some [105;116;101;114;97;116;111;114]%N) ptr_traits; SAlias 144 (Some 8%nat); SRefused]%N.
+Proof. vm_compute. reflexivity. Qed.
+
+(* the hypotheses of the refinement theorems are satisfiable (every id a uintptr_t can hold is
+   well-formed), and on a concrete mixed history the two levels agree by computation as well *)
+Example C06_refines_example :
+  Forall op_wf [OpTraits 129; OpTraits (2 ^ 64 - 1); OpSweep; OpIfaceAdd None] /\
+  let ops := [OpIfaceAdd (Some nm_hello); OpMetaAdd (Some nm_hello); OpBasicAdd 0; OpTypeAdd (Some tr8);
+              OpTraits 2304; OpNamed (Some nm_hello) 5; OpAlias (Some nm_iter) false; OpSweep] in
+  srun sreg0 ops = map obs (run reg0 ops) /\ sexec sreg0 ops = abs (exec reg0 ops).
+Proof. split; [repeat constructor|vm_compute; split; reflexivity]. Qed.
+
+(* the specification's fresh registry is not empty, its two maps agree, its counters are the range starts *)
+Example C06_spec_state_example :
+  s_get sreg0 129 = Some (mkdesc KInterface (plain 8) (Some nm_logger)) /\
+  s_find sreg0 nm_logger = Some 129%N /\ s_get sreg0 11 = Some (mkdesc KBuiltin (plain 8) None) /\
+  s_get sreg0 137 = None /\ length (s_types sreg0) = length g_ctype_sizes /\
+  (s_nbasic sreg0, s_ngeneric sreg0, s_niface sreg0, s_nmeta sreg0) = (192, 2304, 144, 257)%N.
+Proof. vm_compute. repeat split; reflexivity. Qed.
+
+(* every counter of the specification really runs out *)
+Example C06_spec_exhaustion_example :
+  snd (sstep (sexec sreg0 (repeat (OpBasicAdd 1) 64)) (OpBasicAdd 1)) = SRefused /\
+  snd (sstep (sexec sreg0 (repeat (OpIfaceAdd None) 48)) (OpIfaceAdd None)) = SRefused /\
+  snd (sstep (sexec sreg0 (repeat (OpMetaAdd None) 1791)) (OpMetaAdd None)) = SRefused /\
+  snd (sstep (sexec sreg0 (repeat (OpTypeAdd (Some tr8)) 1792)) (OpTypeAdd (Some tr8))) = SRefused /\
+  snd (sstep (sexec sreg0 (repeat (OpTypeAdd (Some tr8)) 1791)) (OpTypeAdd (Some tr8))) = SId 4095.
+Proof. vm_compute. repeat split; reflexivity. Qed.
+
 Print Assumptions C06_run_exec.
 Print Assumptions C06_ids_unique.
 Print Assumptions C06_issued_fresh.
@@ -183,3 +318,15 @@ Print Assumptions C06_exhausted_refused.
 Print Assumptions C06_no_fault.
 Print Assumptions C06_builtin_sizes_correct.
 Print Assumptions C06_helpers_consistent.
+Print Assumptions C06_step_refines_spec.
+Print Assumptions C06_history_refines_spec.
+Print Assumptions C06_fresh_state.
+Print Assumptions C06_fresh_refines_spec.
+Print Assumptions C06_spec_ids_unique.
+Print Assumptions C06_spec_ids_in_kind_range.
+Print Assumptions C06_spec_lookup_stable.
+Print Assumptions C06_spec_refusal_preserves.
+Print Assumptions C06_ids_unique_via_spec.
+Print Assumptions C06_ids_in_kind_range_via_spec.
+Print Assumptions C06_lookup_stable_via_spec.
+Print Assumptions C06_builtins_exactly_listed.
